@@ -191,7 +191,11 @@ impl UnixTerminal {
 
     /// Close all descriptors free all the resources
     fn dispose(&mut self) -> Result<(), Error> {
+        #[cfg(feature = "verif-hooks")]
+        self.verif_c17_dispose("begin");
         self.frames_drop();
+        #[cfg(feature = "verif-hooks")]
+        self.verif_c17_dispose("frames_drop");
 
         // flush currently queued output and submit the epilogue
         self.execute_many([
@@ -220,17 +224,28 @@ impl UnixTerminal {
             TerminalCommand::DeviceAttrs,
         ])
         .unwrap_or(()); // ignore write errors
+        #[cfg(feature = "verif-hooks")]
+        self.verif_c17_dispose("execute_many");
 
         // wait for device attributes report or error
         loop {
+            #[cfg(feature = "verif-hooks")]
+            self.verif_c17_dispose("poll");
             match self.poll(Some(Duration::from_secs(1))) {
                 Err(_) | Ok(Some(TerminalEvent::DeviceAttrs(_)) | None) => break,
                 _ => {}
             }
         }
 
+        #[cfg(feature = "verif-hooks")]
+        self.verif_c17_dispose("loop_exit");
+
         // disable signal handler
         self.signal_delivery.handle().close();
+        #[cfg(feature = "verif-hooks")]
+        self.verif_c17_dispose("signal_close");
+        #[cfg(feature = "verif-hooks")]
+        verif_c17::rec(|| verif_c17::Rec::Restore(verif_c17::termios_words(&self.termios_saved)));
 
         // restore terminal settings
         rustix::termios::tcsetattr(
@@ -238,8 +253,19 @@ impl UnixTerminal {
             rustix::termios::OptionalActions::Flush,
             &self.termios_saved,
         )?;
+        #[cfg(feature = "verif-hooks")]
+        self.verif_c17_dispose("tcsetattr_ok");
 
         Ok(())
+    }
+
+    #[cfg(feature = "verif-hooks")]
+    fn verif_c17_dispose(&self, step: &'static str) {
+        verif_c17::rec(|| verif_c17::Rec::Dispose {
+            step,
+            queued: self.write_queue.len(),
+            events: self.events_queue.len(),
+        });
     }
 }
 
@@ -390,6 +416,12 @@ impl Write for UnixTerminal {
 impl Terminal for UnixTerminal {
     #[tracing::instrument(name="[UnixTerminal.poll]", level="trace", skip_all, fields(?timeout))]
     fn poll(&mut self, timeout: Option<Duration>) -> Result<Option<TerminalEvent>, Error> {
+        #[cfg(feature = "verif-hooks")]
+        verif_c17::rec(|| verif_c17::Rec::PollStart {
+            timeout_ns: verif_c17::ns(timeout),
+            queued: self.write_queue.len(),
+            events: self.events_queue.len(),
+        });
         self.write_queue.flush()?;
 
         let mut first_loop = true;
@@ -404,6 +436,8 @@ impl Terminal for UnixTerminal {
                             // execute first loop even if timeout is 0
                             Some(Duration::new(0, 0))
                         } else {
+                            #[cfg(feature = "verif-hooks")]
+                            verif_c17::rec(|| verif_c17::Rec::Break);
                             break;
                         }
                     } else {
@@ -412,12 +446,24 @@ impl Terminal for UnixTerminal {
                 }
                 None => None,
             };
+            #[cfg(feature = "verif-hooks")]
+            verif_c17::rec(|| verif_c17::Rec::Iter {
+                delay_ns: verif_c17::ns(delay),
+                first_loop,
+            });
 
             let tty_write = PollEvent::new(&self.tty).with_writable(!self.write_queue.is_empty());
             self.poll.register(tty_write)?;
             let (waker, signal, tty) = match self.poll.wait(delay) {
                 Ok(events) => {
                     tracing::trace!(count = events.len(), "[UnixTerminal.poll] events");
+                    #[cfg(feature = "verif-hooks")]
+                    verif_c17::rec(|| verif_c17::Rec::Select {
+                        waker: events.get(&self.waker_read).is_readable(),
+                        signal: events.get(self.signal_delivery.get_read()).is_readable(),
+                        tty_read: events.get(&self.tty).is_readable(),
+                        tty_write: events.get(&self.tty).is_writable(),
+                    });
                     (
                         events.get(&self.waker_read),
                         events.get(self.signal_delivery.get_read()),
@@ -425,6 +471,10 @@ impl Terminal for UnixTerminal {
                     )
                 }
                 Err(error) => {
+                    #[cfg(feature = "verif-hooks")]
+                    verif_c17::rec(|| verif_c17::Rec::SelectErr {
+                        retry: matches!(error.kind(), ErrorKind::Interrupted | ErrorKind::WouldBlock),
+                    });
                     if matches!(error.kind(), ErrorKind::Interrupted | ErrorKind::WouldBlock) {
                         continue;
                     } else {
@@ -440,6 +490,11 @@ impl Terminal for UnixTerminal {
                     let size = guard_io(self.tty.write(slice), 0)?;
                     #[cfg(feature = "verif-hooks")]
                     verif_c16::record(slice.len(), size);
+                    #[cfg(feature = "verif-hooks")]
+                    verif_c17::rec(|| verif_c17::Rec::TtyWrite {
+                        offered: slice.len(),
+                        accepted: size,
+                    });
                     tee.map(|tee| tee.write(&slice[..size])).transpose()?;
                     Ok::<_, Error>(size)
                 })?;
@@ -449,13 +504,19 @@ impl Terminal for UnixTerminal {
             // process signals
             if signal.is_readable() {
                 for signal in self.signal_delivery.pending() {
+                    #[cfg(feature = "verif-hooks")]
+                    verif_c17::rec(|| verif_c17::Rec::Signal(signal));
                     match signal {
                         SIGWINCH => {
                             if self.size.is_none() {
                                 self.events_queue
                                     .push_back(TerminalEvent::Resize(self.size()?));
+                                #[cfg(feature = "verif-hooks")]
+                                verif_c17::rec(|| verif_c17::Rec::Pushed("Resize".into()));
                             } else {
                                 self.write_all(GET_TERM_SIZE)?;
+                                #[cfg(feature = "verif-hooks")]
+                                verif_c17::rec(|| verif_c17::Rec::Queued(GET_TERM_SIZE.len()));
                             }
                         }
                         SIGTERM | SIGINT | SIGQUIT => {
@@ -469,8 +530,14 @@ impl Terminal for UnixTerminal {
             // process waker
             if waker.is_readable() {
                 let mut buf = [0u8; 1024];
+                #[cfg(feature = "verif-hooks")]
+                verif_c17::rec(|| verif_c17::Rec::WakerPending(verif_c17::pending(&self.waker_read)));
                 if guard_io(self.waker_read.read(&mut buf), 0)? != 0 {
+                    #[cfg(feature = "verif-hooks")]
+                    verif_c17::rec(|| verif_c17::Rec::WakerNonZero);
                     self.events_queue.push_back(TerminalEvent::Wake);
+                    #[cfg(feature = "verif-hooks")]
+                    verif_c17::rec(|| verif_c17::Rec::Pushed("Wake".into()));
                 }
             }
 
@@ -478,6 +545,8 @@ impl Terminal for UnixTerminal {
             if tty.is_readable() {
                 let mut buf = [0u8; 1024];
                 let recv = guard_io(self.tty.read(&mut buf), 0)?;
+                #[cfg(feature = "verif-hooks")]
+                verif_c17::rec(|| verif_c17::Rec::TtyRead(buf[..recv].to_vec()));
                 if recv == 0 {
                     return Err(Error::Quit);
                 }
@@ -495,9 +564,13 @@ impl Terminal for UnixTerminal {
                         if let Some(term_size) = self.size.as_mut() {
                             *term_size = size;
                             self.events_queue.push_back(TerminalEvent::Resize(size));
+                            #[cfg(feature = "verif-hooks")]
+                            verif_c17::rec(|| verif_c17::Rec::Pushed("Resize".into()));
                         }
                     }
                     if !self.image_handler.handle(&mut self.write_queue, &event)? {
+                        #[cfg(feature = "verif-hooks")]
+                        verif_c17::rec(|| verif_c17::Rec::Pushed(format!("{event:?}")));
                         self.events_queue.push_back(event)
                     }
                 }
@@ -784,3 +857,5 @@ impl PollEvents<'_> {
 
 #[cfg(feature = "verif-hooks")]
 pub mod verif_c16;
+#[cfg(feature = "verif-hooks")]
+pub mod verif_c17;
